@@ -27,7 +27,7 @@ RULE = (
     "every valid species mapping on parent chains, recount by the documented event model. "
     "Checked for reconcile_thl and reconcile_exhaustive (policies ALL and ANY): no exception, "
     "non-empty result, every output valid, package cost == independent recount == brute-force "
-    "minimum; generate_all == set of valid mappings, each exactly once.  Non-trivial: object "
+    "minimum; generate_all == set of valid mappings, each exactly once, and the package cost of (up to 300 evenly spaced of) them == recount.  Non-trivial: object "
     "tree >= 3 leaves, species tree >= 2 leaves and some optimal reconciliation contains a "
     "duplication, transfer or loss; distinct by SHA-1 of the canonical JSON case."
 )
@@ -112,7 +112,16 @@ def check(case):
                 if recount != opt:
                     raise Violation(f"{algo}.{policy}.cost!=oracle_min", observed=recount, expected=opt, extra={"mapping": m})
 
-    gen_all = Counter(pkg.canon_output(o, labelled=False) for o in pkg.guarded(lambda: list(pkg.generate_all(inp))))
+    all_outputs = pkg.guarded(lambda: list(pkg.generate_all(inp)))
+    gen_all = Counter(pkg.canon_output(o, labelled=False) for o in all_outputs)
+    # the exhaustive solver ranks these with the package evaluator: recount an evenly spaced sample of them
+    step = max(1, len(all_outputs) // 300)
+    for o in all_outputs[::step]:
+        mm = pkg.mapping_names(o)
+        if inst.mapping_valid(mm) is None:
+            pc, rc = pkg.pkg_cost(o), inst.rec_cost(mm)
+            if pc != rc:
+                raise Violation("generate_all.cost!=recount", observed=pc, expected=rc, extra={"mapping": mm})
     if gen_all != valid_set:
         dup = [k for k, v in gen_all.items() if v > 1]
         missing = [k for k in valid_set if k not in gen_all]
